@@ -1,6 +1,9 @@
 package generator
 
 import (
+	"fmt"
+	"path/filepath"
+
 	"github.com/dave/jennifer/jen"
 	"github.com/jmattheis/goverter/builder"
 	"github.com/jmattheis/goverter/config"
@@ -30,11 +33,23 @@ var BuildSteps = []builder.Builder{
 // Generate generates a jen.File containing converters.
 func Generate(converters []*config.Converter, c Config) (map[string][]byte, error) {
 	manager := &fileManager{Files: map[string]*managedFile{}}
+	structs := map[string]*config.Converter{}
 
 	for _, converter := range converters {
 		jenFile, n, err := manager.Get(converter, c)
 		if err != nil {
 			return nil, err
+		}
+
+		if converter.OutputFormat == config.FormatStruct {
+			// the struct types of one output package (the files of one
+			// directory) need distinct names
+			key := filepath.Dir(getOutputDir(converter)) + ":" + converter.Name
+			if other, ok := structs[key]; ok {
+				return nil, fmt.Errorf("Error creating converters\n    %s\n    %s\nand\n    %s\n    %s\n\nCannot use the same struct name %q twice in the output package\n    %s\n\nSee https://goverter.jmattheis.de/reference/name",
+					converter.Location, converter.IDString(), other.Location, other.IDString(), converter.Name, converter.OutputPackagePath)
+			}
+			structs[key] = converter
 		}
 
 		if err := generateConverter(converter, jenFile, n); err != nil {
